@@ -575,11 +575,31 @@ func scanThresh(c *core.Ctx) []ob {
 			switch fd.Name.Name {
 			case "CheckModuli":
 				ord := 0
-				ast.Inspect(fd.Body, func(nd ast.Node) bool {
-					is, ok := nd.(*ast.IfStmt)
-					if !ok {
+				// the size tests, in CheckModuli itself or in a helper of the package it calls once per chain
+				var visit func(body *ast.BlockStmt, depth int)
+				var handle func(is *ast.IfStmt) bool
+				visit = func(body *ast.BlockStmt, depth int) {
+					ast.Inspect(body, func(nd ast.Node) bool {
+						switch x := nd.(type) {
+						case *ast.IfStmt:
+							return handle(x)
+						case *ast.CallExpr:
+							if depth < 2 {
+								if g := calleeFunc(info, x); g != nil && g.Pkg() == pk.Types {
+									for _, f2 := range pk.Syntax {
+										for _, d2 := range f2.Decls {
+											if hd, ok := d2.(*ast.FuncDecl); ok && hd.Body != nil && hd.Recv == nil && info.Defs[hd.Name] == types.Object(g) && hd != fd {
+												visit(hd.Body, depth+1)
+											}
+										}
+									}
+								}
+							}
+						}
 						return true
-					}
+					})
+				}
+				handle = func(is *ast.IfStmt) bool {
 					lb, ok := lenBound(info, is.Cond)
 					if !ok {
 						return true
@@ -597,7 +617,8 @@ func scanThresh(c *core.Ctx) []ob {
 						out = append(out, okOb("THRESH", key, c.Rel(is.Pos()), fmt.Sprintf("largest accepted bit-length %d <= %d", lb, maxSupportedBits), true))
 					}
 					return true
-				})
+				}
+				visit(fd.Body, 0)
 			case "checkModuliLogSize":
 				ord := 0
 				ast.Inspect(fd.Body, func(nd ast.Node) bool {
